@@ -197,6 +197,17 @@ GraphDiff(G, H) ==    \* "" when the graphs are equal up to node identity
                Cardinality({k \in 1..Len(ge) : RelSigSame(G, ge[k], G, ge[i])}) #
                Cardinality({k \in 1..Len(he) : RelSigSame(H, he[k], G, ge[i])}) THEN "relationship-signatures"
      ELSE ""
+(* An alternative reading used only to attribute divergences: relationship properties are stored per (source, type,   *)
+(* target) key, so parallel relationships with one key show one shared property record (later writes override).     *)
+RECURSIVE GroupProps(_, _, _, _)
+GroupProps(G, e, j, acc) ==
+  IF j > Len(G.rels) THEN acc
+  ELSE GroupProps(G, e, j + 1,
+                  IF ~G.rels[j].dead /\ G.rels[j].src = e.src /\ G.rels[j].type = e.type /\ G.rels[j].dst = e.dst
+                  THEN SetProps(acc, G.rels[j].props, 1) ELSE acc)
+SharedRelProps(G) ==
+  [G EXCEPT !.rels = [i \in 1..Len(G.rels) |-> IF G.rels[i].dead THEN G.rels[i]
+                                                 ELSE [G.rels[i] EXCEPT !.props = GroupProps(G, G.rels[i], 1, <<>>)]]]
 (* a statement whose outcome depends on the order of its rows has no single predicted graph *)
 OrderDependent(G, stmt) ==
   LET a == ApplyStmtU(G, stmt, "live", FALSE) b == ApplyStmtU(G, stmt, "live", TRUE) IN
